@@ -34,6 +34,9 @@ type Prog struct {
 	S    string `json:"-"`
 	R    string `json:"-"`
 	Proc bool   `json:"proc,omitempty"`
+	// OwnFile: S is a complete source file (own import block) instead of declarations placed
+	// under the shard's common header.
+	OwnFile bool `json:"own_file,omitempty"`
 }
 
 type Spec struct {
@@ -157,7 +160,7 @@ func (s *Spec) key() string {
 		fmt.Fprintf(h, "%s\x00%s\n", k, s.SFiles[k])
 	}
 	for _, p := range s.Progs {
-		fmt.Fprintf(h, "%s\x00%s\x00%s\x00%s\x00%v\n", p.ID, p.Key, p.S, p.R, p.Proc)
+		fmt.Fprintf(h, "%s\x00%s\x00%s\x00%s\x00%v\x00%v\n", p.ID, p.Key, p.S, p.R, p.Proc, p.OwnFile)
 	}
 	return hex.EncodeToString(h.Sum(nil))[:20]
 }
@@ -491,7 +494,16 @@ func build(s *Spec, work string) (*Meta, error) {
 	sHeader := "package src\n\n" + importBlock(append([]string{coImport, `"verif/rt"`}, s.SImports...)) + s.SHeaderDecl
 	rHeader := "package ref\n\n" + importBlock(append([]string{`"verif/refco"`, `"verif/rt"`}, s.RImports...))
 	src, ref, out, tmp := filepath.Join(work, "src"), filepath.Join(work, "ref"), filepath.Join(work, "out"), filepath.Join(work, "tmp")
-	writeFiles(src, "src", sHeader, s.Progs, func(p Prog) string { return p.S }, perFile)
+	var shared []Prog
+	for _, p := range s.Progs {
+		if p.OwnFile {
+			os.MkdirAll(src, 0o755)
+			os.WriteFile(filepath.Join(src, "p_"+p.ID+".go"), []byte(p.S), 0o644)
+		} else {
+			shared = append(shared, p)
+		}
+	}
+	writeFiles(src, "src", sHeader, shared, func(p Prog) string { return p.S }, perFile)
 	if s.SExtra != "" {
 		os.WriteFile(filepath.Join(src, "extra.go"), []byte(s.SExtra), 0o644)
 	}
@@ -499,7 +511,7 @@ func build(s *Spec, work string) (*Meta, error) {
 		os.WriteFile(filepath.Join(src, name), []byte(content), 0o644)
 	}
 	if !s.NoRef && !s.DeriveRef {
-		writeFiles(ref, "ref", rHeader, s.Progs, func(p Prog) string { return p.R }, perFile)
+		writeFiles(ref, "ref", rHeader, shared, func(p Prog) string { return p.R }, perFile)
 		if s.RExtra != "" {
 			os.WriteFile(filepath.Join(ref, "extra.go"), []byte(s.RExtra), 0o644)
 		}
@@ -532,7 +544,7 @@ func build(s *Spec, work string) (*Meta, error) {
 			set[id] = true
 		}
 		for _, d := range []string{src, ref} {
-			files, _ := filepath.Glob(filepath.Join(d, "f*.go"))
+			files, _ := filepath.Glob(filepath.Join(d, "*.go"))
 			for _, f := range files {
 				cutProgs(f, set)
 			}
@@ -953,7 +965,7 @@ func ProgramText(shardDir, sub, id string) string {
 	return ""
 }
 
-var unusedRe = regexp.MustCompile(`(?m)^(\S+\.go):(\d+):\d+: .*imported and not used`)
+var unusedRe = regexp.MustCompile(`(?m)^(\S+\.go):(\d+):\d+: .*imported (as \S+ )?and not used`)
 
 // dropUnusedImports deletes the import lines the compiler reports as unused.
 func dropUnusedImports(work, stderr string) bool {
